@@ -151,7 +151,11 @@ def end_to_end(ctx, thorough, bind=""):
     try:
         cycles = (7 if thorough else 4) if not bind else (5 if thorough else 3)
         for cyc in range(cycles):
-            if cyc in (2, 5):
+            corrupt = (cyc in (3, 6)) if not bind else (cyc == 3)
+            # a run in which no new (exporter, template id) pair is learnt: the exporters only announce the templates they have
+            # with another definition ("reconfigured"), and data; what is saved at its end must be these definitions
+            redefine = cyc in (1, 4)
+            if corrupt:
                 # an older, much longer file (here: unparsable) is in place: the collector starts with a fresh cache, and the
                 # shorter document it saves at shutdown must replace it completely
                 for f in ("ipfix.templates", "netflow9.templates"):
@@ -182,22 +186,35 @@ def end_to_end(ctx, thorough, bind=""):
                                   "messages were published (stderr: %s)" % (cyc, want, len(lines), col.err_tail(300).replace("\n", " | ")),
                                   {"cycle": cyc, "acknowledged": want, "published": len(lines), "bind": bind or "wildcard"}, key="templates-lost")
                 else:
-                    # and decoded with the acknowledged version
+                    # and decoded with the acknowledged definition: per exporter, the messages published are those the
+                    # acknowledged versions of its templates give (element ids and number of records of the 12-octet data set)
+                    import collections
                     lines = sink.snapshot()[before:]
-                    nrec = {1: 3, 2: 4}
-                    bad = 0
-                    for proto in ("ipfix", "netflow9"):
-                        for (src, tid, v) in acked[proto]:
-                            pass
+                    vsig = lambda v: (tuple(e for e, _ in c04.expected_recs(v)[0]), len(c04.expected_recs(v)))
+                    wantsig = collections.Counter((src, vsig(v)) for proto in ("ipfix", "netflow9") for (src, tid, v) in acked[proto])
+                    gotsig = collections.Counter()
+                    for ln in lines:
+                        try:
+                            doc = json.loads(ln)
+                            recs = [r for ds in ([doc["DataSets"]] if doc["DataSets"] and isinstance(doc["DataSets"][0], dict) else doc["DataSets"]) for r in (ds if isinstance(ds, list) and ds and isinstance(ds[0], list) else [ds])]
+                            gotsig[(doc["AgentID"], (tuple(f["I"] for f in recs[0]), len(recs)))] += 1
+                        except Exception:
+                            gotsig[("?", ln[:80])] += 1
+                    if gotsig != wantsig:
+                        miss = list((wantsig - gotsig).items())[:3]
+                        extra = list((gotsig - wantsig).items())[:3]
+                        ctx.violation("after restart %d, data for the templates acknowledged before the signal is not decoded with the definitions "
+                                      "acknowledged last: expected but not published %s; published instead %s" % (cyc, miss, extra),
+                                      {"cycle": cyc, "bind": bind or "wildcard", "missing": str(miss), "instead": str(extra)}, key="templates-stale")
                     ctx.traces_validated += 1
             # templates, one at a time against DecodedCount: acknowledged
             for proto in ("ipfix", "netflow9"):
                 gp = "ipfix" if proto == "ipfix" else "v9"
                 name = e2e.KEY[proto]
-                for k in range(6 if thorough else 3):
-                    src = srcs[(cyc * 3 + k) % len(srcs)]
-                    tid = 300 + cyc * 10 + k
-                    v = [1, 2, 3][(k + cyc) % 3]      # plain templates and an options template
+                todo = [(srcs[(cyc * 3 + k) % len(srcs)], 300 + cyc * 10 + k, [1, 2, 3][(k + cyc) % 3]) for k in range(6 if thorough else 3)]
+                if redefine and acked[proto]:
+                    todo = [(src, tid, [1, 2, 3][v % 3]) for (src, tid, v) in acked[proto]]
+                for (src, tid, v) in todo:      # plain templates and an options template
                     base = col.stats()[name]
                     senders.send(src, col.ports[proto], c04.tpl_msg(gp, tid, v))
                     ok = e2e.wait_until(lambda: col.stats()[name]["DecodedCount"] > base["DecodedCount"], timeout=5)
@@ -237,9 +254,9 @@ def end_to_end(ctx, thorough, bind=""):
                     try:
                         proto = ("ipfix", "netflow9", "netflow5", "sflow")[i % 4]
                         if proto == "ipfix":
-                            senders.send(src, col.ports[proto], c04.tpl_msg("ipfix", 5000 + i, 1) if i % 3 == 0 else c04.data_msg("ipfix", 5000 + i - i % 3))
+                            senders.send(src, col.ports[proto], c04.tpl_msg("ipfix", 5000 + i, 1) if i % 3 == 0 and not redefine else c04.data_msg("ipfix", 5000 + i - i % 3))
                         elif proto == "netflow9":
-                            senders.send(src, col.ports[proto], c04.tpl_msg("v9", 5000 + i, 2) if i % 3 == 1 else c04.data_msg("v9", 5000 + i))
+                            senders.send(src, col.ports[proto], c04.tpl_msg("v9", 5000 + i, 2) if i % 3 == 1 and not redefine else c04.data_msg("v9", 5000 + i))
                         elif proto == "netflow5":
                             senders.send(src, col.ports[proto], [0, 5, 0, 1] + [i % 256] * 20 + [7] * 48)
                         else:
